@@ -167,7 +167,11 @@ static int run_raw(const Alphabet &A, const int *ops, int n, const std::string &
         s++;
       size_t size = A.mallocs[op].first, align = A.mallocs[op].second;
       set_ctx(align <= 16 ? "alignedMalloc|align<=16" : "alignedMalloc|align>16");
-      unsigned char *p = (unsigned char *)memory::alignedMalloc(size, align);
+      // both overloads: the untyped one at even steps, the typed template (elements of 1 byte, or of 4 when the size
+      // allows) at odd steps - same request, same contract
+      unsigned char *p = (k & 1) == 0 ? (unsigned char *)memory::alignedMalloc(size, align)
+          : (size % 4 == 0 && size > 0) ? (unsigned char *)memory::alignedMalloc<uint32_t>(size / 4, align)
+                                       : memory::alignedMalloc<unsigned char>(size, align);
       bl[s].p = p;
       bl[s].size = size;
       bl[s].align = align;
